@@ -29,12 +29,13 @@ impl File {
 }
 pub struct OpenOptions { pub w: bool, pub c: bool, pub t: bool, pub a: bool }
 impl OpenOptions {
+    // same receiver shapes as std (`&mut self -> &mut Self`, `open(&self, ..)`), so both the builder chain and a named local compile
     pub fn new() -> (r: OpenOptions) { OpenOptions { w: false, c: false, t: false, a: false } }
-    pub fn write(self, v: bool) -> (r: OpenOptions) { OpenOptions { w: v, ..self } }
-    pub fn create(self, v: bool) -> (r: OpenOptions) { OpenOptions { c: v, ..self } }
-    pub fn truncate(self, v: bool) -> (r: OpenOptions) { OpenOptions { t: v, ..self } }
-    pub fn append(self, v: bool) -> (r: OpenOptions) { OpenOptions { a: v, ..self } }
-    #[verifier::external_body] pub fn open(self, path: &str) -> (r: io::Result<File>) { unimplemented!() }
+    pub fn write(&mut self, v: bool) -> (r: &mut OpenOptions) { self.w = v; self }
+    pub fn create(&mut self, v: bool) -> (r: &mut OpenOptions) { self.c = v; self }
+    pub fn truncate(&mut self, v: bool) -> (r: &mut OpenOptions) { self.t = v; self }
+    pub fn append(&mut self, v: bool) -> (r: &mut OpenOptions) { self.a = v; self }
+    #[verifier::external_body] pub fn open(&self, path: &str) -> (r: io::Result<File>) { unimplemented!() }
 }
 
 /*@type lang/dynamics/src/host.rs :: struct ReaderHandle
